@@ -231,7 +231,7 @@ pub fn run(c: &Ctx) {
     });
     c.note("matrix_cases", cases.len());
     // (b) random histories
-    let cfg = GenCfg { names: NAMES3, avoid_through_link: false, plain_spelling: false, wild: true };
+    let cfg = GenCfg { names: NAMES3, avoid_through_link: false, plain_spelling: false, wild: true, handles: false };
     let n = c.tier.pick(3_000, 60_000);
     run_proptest("ops", 1301, || history(40), n, |specs: &Vec<OpSpec>| {
         // resolve against a model that follows a scratch Memfs
